@@ -1,0 +1,13 @@
+//go:build verif
+
+// Contracts for package merkle, read by /verif/govc. Comments only.
+
+package merkle
+
+// Shape only: one root per prefix length. That entry i is the root of Tree(values[:i+1]) is not under contract
+// (recursive memoised closure, bit-level depth arithmetic): see DESIGN.md, C14.
+//@ func BatchTree
+//@   property C18
+//@   modifies auto
+//@   maypanic bounds depth arithmetic with shifts inside a recursive closure is outside the arithmetic the generator models
+//@   ensures[one_root_per_prefix] len(result) == len(values)
